@@ -150,6 +150,52 @@ def gen_virtual(k):
             out.append("virt %s %d %s" % (c, r, desc))
     return out
 
+
+def gen_domain(k):
+    """the edge of the documented domain: no sequence (m = 0), no data, ranks outside [0, N) for the selection (must throw),
+    single sequences, sequences of length 1"""
+    out = ["all L -", "one G 0 -", "all Q -", "sel L 0 -", "sel G 5 -", "sel Q -3 -",
+           "sel L 0 |", "sel L 2 ||", "sel G -1 |||", "sel Q 0 |"]
+    for _ in range(k):
+        cmpc = rng.choice(["L", "G", "Q"])
+        m = rng.range(1, 5)
+        keys = rng.choice([1, 2, 3, 50])
+        seqs = [make_seq(cmpc, rng.choice([1, 1, 1, 2, 3, 7, 8, 9]), keys) for _ in range(m)]
+        N = sum(len(x) for x in seqs)
+        for r in (-1, -rng.range(2, 1000), N, N + 1, N + rng.range(2, 100000), rng.below(N), 0, N - 1):
+            out.append("sel %s %d %s" % (cmpc, r, fmt(seqs)))
+        out.append("all %s %s" % (cmpc, fmt(seqs)))
+    return out
+
+
+def gen_narrow():
+    """RankType narrower than the total number of elements (unsigned char with N > 255, short with N > 32767)"""
+    out = []
+    for _ in range(30):
+        lens = [rng.range(60, 200) for _ in range(rng.range(2, 4))]
+        seqs = [sorted(rng.below(3) for _ in range(n)) for n in lens]
+        N = sum(lens)
+        for r in sorted({0, 1, N % 256, (N % 256) - 1 if N % 256 else 0, 100, 255, rng.below(256)}):
+            if 0 <= r <= min(N, 255):
+                out.append("narrow L uchar %d %s" % (r, fmt(seqs)))
+    for _ in range(3):
+        lens = [rng.range(20000, 30000) for _ in range(3)]
+        seqs = [sorted(rng.below(2) for _ in range(n)) for n in lens]
+        N = sum(lens)
+        for r in sorted({0, N % 65536, 12345, 32767}):
+            if 0 <= r <= 32767:
+                out.append("narrow L short %d %s" % (r, fmt(seqs)))
+    return out
+
+
+def gen_narrow_virtual():
+    out = []
+    for n in ((1 << 32) + 70000, (1 << 32) + 5, (1 << 33) + 17):
+        for r in (0, 5, 17, 70000, 12345678, (1 << 31) - 1):
+            out.append("virtn L %d 1*%d|1*3,2*4" % (r, n))
+            out.append("virtn L %d 0*7,1*%d" % (r, n))
+    return out
+
 # ---------------------------------------------------------------- the shards (each: list of case lines)
 corpus = [l.strip() for l in open(os.path.join(verif.VERIF, "corpus", "C08", "cases.txt")) if l.strip()]
 shards = []
@@ -169,6 +215,7 @@ elif ck.thorough():
         shards.append(("random-%d" % i, gen_random(2500)))
     shards.append(("virtual", gen_virtual(400)))
     shards.append(("pad", gen_pad()))
+    shards.append(("domain", gen_domain(400)))
 else:
     shards.append(("corpus", corpus))
     shards.append(("exh-L-m3-len4-k3", ["exh L 1 1 9 3", "exh L 2 1 4 3", "exh L 3 1 4 3"]))
@@ -179,6 +226,15 @@ else:
         shards.append(("random-%d" % i, gen_random(700)))
     shards.append(("virtual", gen_virtual(40)))
     shards.append(("pad", gen_pad()))
+    shards.append(("domain", gen_domain(60)))
+
+# RankType narrower than the total (defect fixed in /repo b429853: N was accumulated in RankType): the witnesses of
+# corpus/C08/narrow.txt and virtual_narrow.txt first, then generated cases; run right after the corpus.
+if not ck.replay:
+    def _corpus(fn):
+        return [l.strip() for l in open(os.path.join(verif.VERIF, "corpus", "C08", fn)) if l.strip()]
+    shards.insert(1, ("narrow", _corpus("narrow.txt") + gen_narrow()))
+    shards.insert(2, ("narrow-virtual", _corpus("virtual_narrow.txt") + gen_narrow_virtual()))
 
 # ---------------------------------------------------------------- build + run
 # The harness instantiates both templates for 10 variants x 3 comparators; it is compiled as four translation units
@@ -196,11 +252,11 @@ for k, (name, lines) in enumerate(shards):
     files.append(p)
 TMO = 3000
 def virt_model(lines):
-    return 0, "\n".join(virt_expected(l) for l in lines if l.startswith("virt ")) + "\n"
+    return 0, "\n".join(virt_expected(l) for l in lines if l.startswith("virt")) + "\n"
 
 
 def is_virt(lines):
-    return bool(lines) and all(l.startswith("virt ") for l in lines)
+    return bool(lines) and all(l.startswith("virt ") or l.startswith("virtn ") for l in lines)
 
 
 # virtual sequences cannot be materialised for the extracted model: their expected answers come from virt_expected
@@ -231,6 +287,8 @@ def first_bad_case(line, verdict):
     """turn an implementation output line + judge verdict into a single-rank replay case"""
     c, s = line.split(" ")[0:2]
     r = verdict.split("rank=")[1].split(":")[0] if "rank=" in verdict else "0"
+    if len(c) == 2 and c[0] == "S":
+        return "sel %s %s %s" % (c[1], r, s)
     return "one %s %s %s" % (c, r, s)
 
 
@@ -275,6 +333,23 @@ else:
             # crash under ASan/UBSan (or failed assertion): the model's line at the position where the
             # implementation's output stops names the tuple; bisect to a single rank
             found = True
+            if name.startswith("narrow"):
+                nclean = 0
+                while nclean < len(impl) and " =>" in impl[nclean]:
+                    nclean += 1
+                wrong = [i for i in range(min(nclean, len(model))) if impl[i] != model[i]]
+                if reported < 3:
+                    reported += 1
+                    if wrong:       # a wrong answer before the abort is the better witness
+                        i = wrong[0]
+                        v = judge([impl[i]])[0] if impl[i].startswith("L ") else "spec-evaluation differs"
+                        ck.violation("RankType narrower than the total number of elements: %s; impl=%s expected=%s"
+                                     % (v, impl[i][-70:], model[i][-70:]),
+                                     {"case": lines[i], "verdict": v, "impl": impl[i][-300:], "expected": model[i][-300:]})
+                    else:
+                        ck.violation("RankType narrower than the total: a valid rank aborts (assertion rank < N on a wrapped total) or crashes",
+                                     {"case": lines[nclean] if nclean < len(lines) else None, "log_tail": out1[-800:]})
+                continue
             if reported >= 3:
                 continue
             reported += 1
@@ -314,6 +389,22 @@ else:
         mism = [i for i in range(max(len(impl), len(model)))
                 if i >= len(impl) or i >= len(model) or impl[i] != model[i]]
         spec_bad = [l for l in model if "MODEL-DIFFERS-FROM-SPEC" in l]
+        if name.startswith("narrow") and mism:
+            # one output line per case; the answer is decided by the extracted checker (explicit lists) resp. the spec (virtual)
+            i = mism[0]
+            a = impl[i] if i < len(impl) else "<missing>"
+            b = model[i] if i < len(model) else "<missing>"
+            v = judge([a])[0] if (a.startswith("L ") and i < len(impl)) else "spec-evaluation differs"
+            found = True
+            if reported < 3:
+                reported += 1
+                ck.violation("RankType narrower than the total number of elements: %s; impl=%s expected=%s" % (v, a[-70:], b[-70:]),
+                             {"case": lines[i] if i < len(lines) else None, "verdict": v, "impl": a[-300:], "expected": b[-300:]})
+        if name.startswith("narrow"):
+            special["narrow_evaluations"] = special.get("narrow_evaluations", 0) + len(impl)
+            if name == "narrow-virtual":
+                special["narrow_virtual_evaluations"] = special.get("narrow_virtual_evaluations", 0) + len(impl)
+            continue
         sp = [i for i in mism if (i < len(impl) and (impl[i].startswith("V") or impl[i].startswith("pad ")))
               or (i < len(model) and (model[i].startswith("V") or model[i].startswith("pad ")))]
         mism = [i for i in mism if i not in set(sp)]
@@ -332,13 +423,17 @@ else:
                              {"correspondence": "MSP.rup2 vs tlx/math/round_to_power_of_two.hpp", "case": a.split(" =>")[0], "impl": a, "model": b},
                              no_input=True)
         if mism:
-            bad_lines = [impl[i] for i in mism[:200] if i < len(impl)]
+            bad_idx = [i for i in mism[:200] if i < len(impl)]
+            bad_lines = [impl[i] for i in bad_idx]
             verdicts = judge(bad_lines) if bad_lines else []
-            for ln, v in zip(bad_lines, verdicts):
+            one_per_line = not any(l.startswith("exh") for l in lines)
+            for bi, ln, v in zip(bad_idx, bad_lines, verdicts):
                 if v.startswith("bad"):
                     found = True
                     if reported < 3:
                         case = first_bad_case(ln, v)
+                        if one_per_line and bi < len(lines) and lines[bi].startswith("narrow "):
+                            case = lines[bi]        # keep the RankType of the case
                         ck.violation("implementation answer violates the property (decided by the extracted checker): %s on %s"
                                      % (v, ln[:160]), {"case": case, "impl": ln[:2000], "verdict": v,
                                                        "replay_cmd": "bin/check C08 --replay <this file>"})
@@ -366,10 +461,10 @@ else:
                 special["pad_evaluations"] += 1
                 continue
             tuples_run += 1
-            seqs = parts[1].split("|")
+            seqs = parts[1].split("|") if parts[1] != "-" else []
             hist["cmp"][parts[0]] = hist["cmp"].get(parts[0], 0) + 1
             hist["m"][str(len(seqs))] = hist["m"].get(str(len(seqs)), 0) + 1
-            b = bucket(max(s.count(",") + 1 for s in seqs))
+            b = bucket(max([s.count(",") + 1 for s in seqs if s] + [0]))
             hist["maxlen"][b] = hist["maxlen"].get(b, 0) + 1
         if impl and len(samples) < 6:
             k = len(impl) // 2
@@ -382,9 +477,11 @@ if pr is not None and not pr["ok"]:
     ck.proof_broken(found)
 
 ck.finish({
-    "evaluations": stats.get("entries", 0) + special["virtual_evaluations"] + special["pad_evaluations"],
+    "evaluations": stats.get("entries", 0) + special["virtual_evaluations"] + special["pad_evaluations"]
+                   + special.get("narrow_virtual_evaluations", 0),
     "virtual_evaluations": special["virtual_evaluations"],
     "pad_evaluations": special["pad_evaluations"],
+    "narrow_ranktype_evaluations": special.get("narrow_evaluations", 0),
     "distinct_nontrivial": stats.get("nontrivial_distinct", 0),
     "tuples": tuples_run,
     "rule": "one evaluation = one (comparator, tuple of sorted sequences, rank) on which both multisequence_partition and "
